@@ -674,6 +674,61 @@ func c13NewlineFlag(c *Ctx) {
 		}
 		c.check(okFlag, "R6", "newline-ends-statement", p.Pos(ase.Pos()), "after a newline the statement-end test answers true at once", "atStatementEnd does not answer `true` as soon as a newline was seen: whether a newline ends a statement now depends on what follows it (a bare print / return followed by a line starting with an operator swallows that line)")
 	}
+	// a statement end that was found (and, for `;`, consumed) is remembered for the caller: from the
+	// edge on which atStatementEnd answered true, every return of the calling function passes a store
+	// didEndStatement = true — otherwise `stmt; next` on one line fails where `stmt⏎next` parses
+	{
+		k := 0
+		for _, cs := range p.CallSitesOf(ase) {
+			cv, ok := cs.(*ssa.Call)
+			f := cs.Parent()
+			if !ok || p.inTestFile(f) {
+				continue
+			}
+			var res ssa.Value
+			for _, r := range referrersOf(cv) {
+				if ex, ok := r.(*ssa.Extract); ok && ex.Index == 0 {
+					res = ex
+				}
+			}
+			if res == nil {
+				continue
+			}
+			stores := map[*ssa.BasicBlock]bool{}
+			for _, st := range storesToField(f, "Parser", "didEndStatement", false) {
+				if b, isC := constBool(st.Val); isC && b {
+					stores[st.Block()] = true
+				}
+			}
+			for _, r := range referrersOf(res) {
+				ifi, ok := r.(*ssa.If)
+				if !ok {
+					continue
+				}
+				k++
+				trueEdge := ifi.Block().Succs[0]
+				if un, isNot := ifi.Cond.(*ssa.UnOp); isNot && un.X == res {
+					trueEdge = ifi.Block().Succs[1]
+				}
+				lost := ""
+				for b := range reachableFrom([]*ssa.BasicBlock{trueEdge}, stores) {
+					if stores[b] {
+						continue
+					}
+					if ret, isRet := b.Instrs[len(b.Instrs)-1].(*ssa.Return); isRet {
+						res := effectiveResults(ret)
+						if EKOf(p).KindsAt(res[len(res)-1], FactsOf(f).At(b)).Has(KNil) {
+							lost = p.InstrPos(ret)
+						}
+					}
+				}
+				c.check(lost == "", "R6", fmt.Sprintf("statement-end-remembered #%d in %s", k, shortName(f)), p.InstrPos(cv), "a found statement end is recorded before the function returns", "after atStatementEnd answered true the function can return successfully (at "+lost+") without recording the statement end: a `;` consumed here is forgotten, so a statement following on the same line is a syntax error although the same tokens separated by a newline parse")
+			}
+		}
+		if k < 3 {
+			c.undecided("R6", "statement-end-remembered", p.Pos(ase.Pos()), fmt.Sprintf("%d tests of atStatementEnd's answer found, 4 confirmed by hand", k))
+		}
+	}
 	allowed := map[string]bool{"(*lang.Parser).block": true, "(*lang.Parser).statement": true, "(*lang.Parser).printStatement": true}
 	callers := map[string]int{}
 	for _, cs := range p.CallSitesOf(ase) {
